@@ -12,6 +12,7 @@ RULE = ("static: every store site of ffuncs/xfuncs/ccubes/xcubes and of the non-
 def run(ctx):
     total = ok = 0
     fns = 0
+    stale_sites = []
     for mod in ("ffuncs", "xfuncs", "ccubes", "xcubes", "iindexes"):
         sites, nf = fresh.analyse_module(mod, env.read_source(mod + ".py"))
         fns += nf
@@ -19,6 +20,10 @@ def run(ctx):
             total += 1
             if s.ok:
                 ok += 1
+            elif "<unknown provenance>" in s.why or s.name.endswith("/unsupported-statement"):
+                # the analysis does not recognise the construct (incompleteness, not an alias chain to caller-owned memory):
+                # that site is proof_stale and is decided by the run-time frame contract below
+                stale_sites.append(s)
             else:
                 ctx.violation(core.Violation("C17", s.name, "store site `%s` %s: not provably confined to memory allocated in this call or handed over for writing"
                                              % (s.text, s.why), input=None, cls={"site": s.name}, solver={"statement": s.text, "why": s.why, "line": s.lineno}, no_input=True))
@@ -50,7 +55,8 @@ def run(ctx):
         "__init__ other than the diagnostics the property excludes). Run-time half (bounded): byte snapshots of every argument around every aggregate "
         "of both cube types, second call == first, re-used function objects == fresh ones on the same and on another cube, every permutation of "
         "aggregate triples equals the single evaluations, plus the frame / no-shared-storage clauses of every iindex operation contract." % (ok, total, fns))
-    ctx.coverage["static_store_sites"] = {"obligations": total, "discharged": ok, "functions": fns}
+    ctx.coverage["static_store_sites"] = {"obligations": total, "discharged": ok, "functions": fns,
+                                          "proof_stale": [{"site": x.name, "statement": x.text, "why": x.why} for x in stale_sites]}
     ctx.assumptions += ["NumPy functions mutate their arguments only through out= and the known mutating methods",
                         "array-level aliasing inside freshly built containers is judged at run time (byte snapshots), not statically"]
 
